@@ -50,7 +50,7 @@ def opPkt (p : Bytes) : R String := do
   let af ← Packet.afRange p
   let pl ← Packet.payloadRange p
   let afc := (if Packet.hasAf b3 then 2 else 0) + (if Packet.hasPayload b3 then 1 else 0)
-  pure s!"tei={fb tei} pusi={fb pusi} prio={fb prio} pid={pid} scr={fb (Packet.isScrambled b3)} scheme={Packet.scheme b3} afc={afc} cc={cc} af={fr af} pl={fr pl} aceq=1 tsceq=1 acdbg=AdaptationControl({Packet.adaptationControlRepr b3})"
+  pure s!"tei={fb tei} pusi={fb pusi} prio={fb prio} pid={pid} scr={fb (Packet.isScrambled b3)} scheme={Packet.scheme b3} afc={afc} cc={cc} af={fr af} pl={fr pl} aceq=1 tsceq=1"
 
 /-! ### af -/
 def fTsErr : Time.TsErr → String
